@@ -114,19 +114,25 @@ def structures(n):
     return [(p, list(s)) for p in pats for s in itertools.product([0, 1], repeat=n)]
 
 
-def make_ineq(I, sm, tag, n, op, coef_bound=None, struct=None):
+def make_ineq(I, sm, tag, n, op, coef_bound=None, struct=None, conc=None):
     """build sum c_i*lit_i (op) b through the real API; returns (Ineq, semantics(bits)->bool expr, names)"""
     e = PB.Expr()
     terms = []
     for i in range(n):
         vi, pol = struct[0][i], struct[1][i]
-        c = I.int(f"{tag}.c{i}") if coef_bound is None else I.int(f"{tag}.c{i}", -coef_bound, coef_bound)
+        if conc is not None:  # concrete coefficients (every value of the range, by structural choice): memo keys are real strings
+            c = conc[0] + I.choice(f"{tag}.k{i}", conc[1] - conc[0] + 1)
+        else:
+            c = I.int(f"{tag}.c{i}") if coef_bound is None else I.int(f"{tag}.c{i}", -coef_bound, coef_bound)
         lit = sm.newvar(VARS[vi])
         if pol:
             lit = -lit
         e = e + c * lit
         terms.append((c, vi, pol))
-    b = I.int(f"{tag}.b") if coef_bound is None else I.int(f"{tag}.b", -4 * coef_bound, 4 * coef_bound)
+    if conc is not None:
+        b = conc[2] + I.choice(f"{tag}.kb", conc[3] - conc[2] + 1)
+    else:
+        b = I.int(f"{tag}.b") if coef_bound is None else I.int(f"{tag}.b", -4 * coef_bound, 4 * coef_bound)
     q = e >= b if op == '>=' else e <= b if op == '<=' else e > b if op == '>' else e < b if op == '<' else (e == b)
     used = sorted(set(v for _, v, _ in terms))
 
@@ -154,10 +160,14 @@ def check_exact(I, label, sm, sems, used):
 EARLIER = [
     lambda sm: sm.pseudoboolencoding(3 * sm.newvar('a') + 2 * sm.newvar('b') + 2 * sm.newvar('c') >= 4),
     lambda sm: sm.pseudoboolencoding(2 * sm.newvar('b') + 1 * sm.newvar('a') + 1 * sm.newvar('c') >= 2, True),
+    lambda sm: sm.pseudoboolencoding(4 * sm.newvar('a') + 3 * sm.newvar('b') + 2 * sm.newvar('c') + 1 * sm.newvar('d') >= 5),
+    lambda sm: sm.pseudoboolencoding(4 * sm.newvar('a') + 3 * (-sm.newvar('b')) + 2 * (-sm.newvar('c')) >= 5),
 ]
 EARLIER_SEM = [
     lambda asg: 3 * asg.get(0, False) + 2 * asg.get(1, False) + 2 * asg.get(2, False) >= 4,
     lambda asg: 2 * asg.get(1, False) + 1 * asg.get(0, False) + 1 * asg.get(2, False) >= 2,
+    lambda asg: 4 * asg.get(0, False) + 3 * asg.get(1, False) + 2 * asg.get(2, False) + 1 * asg.get(3, False) >= 5,
+    lambda asg: 4 * asg.get(0, False) + 3 * (not asg.get(1, False)) + 2 * (not asg.get(2, False)) >= 5,
 ]
 
 
@@ -180,6 +190,11 @@ def cases(tier):
             for decomp in (False, True):
                 for st in structures(2):
                     cs.append(dict(kind='ineq', op='>=', n=2, decomp=decomp, hist=hist, same_manager=same, struct=st))
+    # history with CONCRETE coefficients (symbolic coefficients print as opaque tokens, so textual memo collisions need concrete ones)
+    for same in (False, True):
+        for decomp in (False, True):
+            for st in (([0, 1], [0, 1]), ([0, 1], [1, 0])):
+                cs.append(dict(kind='ineq', op='>=', n=2, decomp=decomp, hist=2, same_manager=same, struct=st, conc=[1, 4, 1, 8]))
     ms = range(1, 7) if tier == 'quick' else range(1, 10)
     ks = (3, 4) if tier == 'quick' else (3, 4, 5)
     for m in ms:
@@ -193,6 +208,9 @@ def cases(tier):
     cs.append(dict(kind='solve', which=0))
     cs.append(dict(kind='solve', which=1))
     cs.append(dict(kind='solve', which=2))
+    for c in cs:
+        if c.get('hist'):
+            c['_fork'] = True  # every path in its own process: leftover state of one re-execution must not reach the next
     return cs
 
 
@@ -207,16 +225,16 @@ def body(I, case):
         hist_vars = set()
         for h in range(case['hist']):
             hm = sm if case.get('same_manager') else SM.SATManager()
-            idx = I.choice(f'h{h}', len(EARLIER))
+            idx = I.choice(f'h{h}', len(EARLIER)) if not case.get('conc') else (2 + h) % len(EARLIER)
             EARLIER[idx](hm)
             if case.get('same_manager'):
                 sems.append(EARLIER_SEM[idx])
-                hist_vars |= {0, 1, 2}
+                hist_vars |= {0, 1, 2, 3} if idx == 2 else {0, 1, 2}
             I.reached('history')
         bound = 7 if case['decomp'] else None
         before = len(sm.clauses)
         try:
-            q, sem, used = make_ineq(I, sm, 'q', case['n'], case['op'], bound, case['struct'])
+            q, sem, used = make_ineq(I, sm, 'q', case['n'], case['op'], bound, case['struct'], conc=case.get('conc'))
         except (TypeError,) as e:
             I.reached('refused-at-construction')
             return
